@@ -45,14 +45,23 @@ func getRamainsSum(states *[]types.State) sdk.DecCoins {
 
 func (k Keeper) PrepareCoinsToDistribute(sources []*types.Account, ctx sdk.Context, states []types.State, subDistributorName string) sdk.DecCoins {
 	allCoinsToDistribute := sdk.NewDecCoins()
+	// the main account's not yet distributed coins must be determined before other
+	// sources are swept into it or have their remains re-queued
 	for _, source := range sources {
-		var coinsToDistribute sdk.DecCoins
-		if source.Type == types.Main {
-			coinsToDistribute = k.prepareCoinToDistributeForMainAccount(ctx, states, subDistributorName)
-		} else {
-			coinsToDistribute = k.prepareCoinToDistributeForNotMainAccount(ctx, *source, states, subDistributorName)
+		if source.Type != types.Main {
+			continue
 		}
-
+		coinsToDistribute := k.prepareCoinToDistributeForMainAccount(ctx, states, subDistributorName)
+		if len(coinsToDistribute) == 0 {
+			continue
+		}
+		allCoinsToDistribute = allCoinsToDistribute.Add(coinsToDistribute...)
+	}
+	for _, source := range sources {
+		if source.Type == types.Main {
+			continue
+		}
+		coinsToDistribute := k.prepareCoinToDistributeForNotMainAccount(ctx, *source, states, subDistributorName)
 		if len(coinsToDistribute) == 0 {
 			continue
 		}
